@@ -40,10 +40,14 @@ let st = { cases = 0; corr_fail = 0; mon_fail = 0; mon_zero = 0; in_range = 0; a
            thm_fail = 0; model_evals = 0; saturated = 0; model_wrong_agree = 0; const_ = -1;
            sweep = [||]; nontrivial = Hashtbl.create 4096 }
 
-let max_fail_lines = 50
-let printed = ref 0
-let fail fmt =
-  Printf.ksprintf (fun s -> incr printed; if !printed <= max_fail_lines then print_endline s) fmt
+(* at most max_fail_lines FAIL lines of each kind (corr / mon) are printed; the counts are exact *)
+let max_fail_lines = 25
+let printed_corr = ref 0
+let printed_mon = ref 0
+let fail_to (c : int ref) fmt =
+  Printf.ksprintf (fun s -> incr c; if !c <= max_fail_lines then print_endline s) fmt
+let fail_corr fmt = fail_to printed_corr fmt
+let fail_mon fmt = fail_to printed_mon fmt
 
 let model (nn : int64) (d : int64) : int =
   st.model_evals <- st.model_evals + 1;
@@ -56,7 +60,7 @@ let handle_const (lineno : int) (_ : string) (r : reader) : unit =
   st.const_ <- d;
   if Int64.of_int d <> model_const () then begin
     st.corr_fail <- st.corr_fail + 1;
-    fail "FAIL corr line=%d ENCRYPTED_BLOB_MAX_SIZE impl=%d model=%Ld (generated constant out of date)"
+    fail_corr "FAIL corr line=%d ENCRYPTED_BLOB_MAX_SIZE impl=%d model=%Ld (generated constant out of date)"
       lineno d (model_const ())
   end
 
@@ -75,34 +79,34 @@ let handle_sl (lineno : int) (_ : string) (r : reader) : unit =
   let m = model nn (model_const ()) in
   if m <> v then begin
     st.corr_fail <- st.corr_fail + 1;
-    fail "FAIL corr line=%d n=%s d=%Ld model=%d impl=%d case=%s" lineno ns d m v key
+    fail_corr "FAIL corr line=%d n=%s d=%Ld model=%d impl=%d case=%s" lineno ns d m v key
   end;
   if in_exact_range nn then begin
     st.in_range <- st.in_range + 1;
     (* the theorem, re-evaluated on the extracted code: model = Tower.slots_of *)
     if m <> int_of_n (slots_of (n_of_u64 nn)) then begin
       st.thm_fail <- st.thm_fail + 1;
-      fail "FAIL corr line=%d n=%s extracted model=%d differs from Tower.slots_of=%d (C07_slots_exact)"
+      fail_corr "FAIL corr line=%d n=%s extracted model=%d differs from Tower.slots_of=%d (C07_slots_exact)"
         lineno ns m (int_of_n (slots_of (n_of_u64 nn)))
     end;
     (* monitor, on the implementation's value, closed form in native integers *)
     let n = Int64.to_int nn and di = Int64.to_int d in
     if di <= 0 then begin
       st.mon_fail <- st.mon_fail + 1;
-      fail "FAIL mon line=%d class=formula n=%d d=%d slot size is not positive case=%s" lineno n di key
+      fail_mon "FAIL mon line=%d class=formula n=%d d=%d slot size is not positive case=%s" lineno n di key
     end else begin
       let exact = (n + di - 1) / di in
       if n = 0 then begin
         if v = 0 then begin
           st.mon_zero <- st.mon_zero + 1;
-          fail "FAIL mon line=%d class=zero-blob n=0 d=%d impl=0 (less than one slot) case=%s" lineno di key
+          fail_mon "FAIL mon line=%d class=zero-blob n=0 d=%d impl=0 (less than one slot) case=%s" lineno di key
         end else if v <> 1 then begin
           st.mon_fail <- st.mon_fail + 1;
-          fail "FAIL mon line=%d class=formula n=0 d=%d exact=0 impl=%d case=%s" lineno di v key
+          fail_mon "FAIL mon line=%d class=formula n=0 d=%d exact=0 impl=%d case=%s" lineno di v key
         end
       end else if v <> exact || v < 1 then begin
         st.mon_fail <- st.mon_fail + 1;
-        fail "FAIL mon line=%d class=formula n=%d d=%d exact=%d impl=%d case=%s" lineno n di exact v key
+        fail_mon "FAIL mon line=%d class=formula n=%d d=%d exact=%d impl=%d case=%s" lineno n di exact v key
       end
     end
   end else st.above <- st.above + 1
@@ -119,7 +123,7 @@ let handle_sld (lineno : int) (_ : string) (r : reader) : unit =
   let m = model (u64_of_string ns) (u64_of_string ds) in
   if m <> v then begin
     st.corr_fail <- st.corr_fail + 1;
-    fail "FAIL corr line=%d n=%s d=%s model=%d impl=%d case=%s" lineno ns ds m v key
+    fail_corr "FAIL corr line=%d n=%s d=%s model=%d impl=%d case=%s" lineno ns ds m v key
   end
 
 (* the sweep's wrong points: the model must be wrong in the same way *)
@@ -130,7 +134,7 @@ let handle_wrong (lineno : int) (_ : string) (r : reader) : unit =
   if m = v then st.model_wrong_agree <- st.model_wrong_agree + 1
   else begin
     st.corr_fail <- st.corr_fail + 1;
-    fail "FAIL corr line=%d sweep: n=%s impl=%d model=%d case=SL %s" lineno ns v m ns
+    fail_corr "FAIL corr line=%d sweep: n=%s impl=%d model=%d case=SL %s" lineno ns v m ns
   end
 
 let handle_sweep (_ : int) (_ : string) (r : reader) : unit =
@@ -143,7 +147,7 @@ let summary () =
       "SUMMARY kind=SL cases=%d sld_cases=%d corr_fail=%d mon_fail=%d mon_zero_blob=%d thm_fail=%d distinct_nontrivial=%d in_range=%d above_range=%d saturated=%d model_evals=%d blob_max=%d sweep_upto=%d sweep_evaluated=%d sweep_wrong=%d sweep_wrong_le_2p24=%d sweep_first_wrong=%d sweep_last_wrong=%d sweep_panics=%d sweep_wrong_model_agrees=%d fail_lines_suppressed=%d\n"
       st.cases st.sld st.corr_fail st.mon_fail st.mon_zero st.thm_fail (Hashtbl.length st.nontrivial)
       st.in_range st.above st.saturated st.model_evals st.const_ (sw 0) (sw 1) (sw 2) (sw 3) (sw 4) (sw 5) (sw 6)
-      st.model_wrong_agree (max 0 (!printed - max_fail_lines))
+      st.model_wrong_agree (max 0 (!printed_corr - max_fail_lines) + max 0 (!printed_mon - max_fail_lines))
   end
 
 let () =
